@@ -137,8 +137,20 @@ def search(ctx, hints):
             res['violations'].append(dict(key=m.group(1), desc='concurrent execution answered %s, %s' % (m.group(2)[:160], m.group(3)[:160]),
                                           replay=dict(op=m.group(4), impl=m.group(2), reference=m.group(3))))
     if 'DATA RACE' in se2:
-        res['violations'].append(dict(key='data-race-in-vm', desc='race detector report while running EVMs concurrently',
-                                      replay=dict(report=se2[se2.find('DATA RACE') - 50:][:1500])))
+        # a race counts for C10 only if one of the two racing accesses is itself in package vm or
+        # in uint256 (the frame right under "Read at/Write at/Previous ..."); races in other
+        # packages reached through the EVM (account DB caches, loggers) are recorded, not raised
+        in_vm, outside = [], []
+        for blk in se2.split('WARNING: DATA RACE')[1:]:
+            tops = re.findall(r'(?:Read at|Write at|Previous read at|Previous write at)[^\n]*\n\s+(\S+)\(\)', blk)
+            if any(('/src/vm.' in t or 'holiman/uint256' in t) for t in tops):
+                in_vm.append(blk[:1500])
+            else:
+                outside.append(' <-> '.join(tops)[:300])
+        conc['races_outside_vm'] = sorted(set(outside))[:5]
+        if in_vm:
+            res['violations'].append(dict(key='data-race-in-vm', desc='race detector report with a racing access inside package vm',
+                                          replay=dict(report=in_vm[0])))
     if rc2 != 0 and 'DATA RACE' not in se2:
         res['error'] = (res.get('error', '') + ' concurrent phase exited %d: %s' % (rc2, (se2 or so2)[-400:])).strip()
     res['concurrency'] = conc
